@@ -1,16 +1,17 @@
 //! C10: answers do not depend on what the same solver solved before.
 //! Explicit-state search in "replayed state" mode: a state is the history that
 //! reaches it; states are deduplicated by the solver's fingerprint (hook H2);
-//! the search runs to closure (no new fingerprints).
+//! the search runs to closure (no new fingerprints). The explorer is shared
+//! with C05 and C06 (their "never reused" / "never leaks" clauses).
 
 use super::*;
-use crate::drive::{decode_caught, AnySolver, Caught, DSol, SolverCfg};
+use crate::drive::{decode_caught, AnySolver, Caught, DSol, Peeled, SolverCfg};
 use crate::report::Violation;
 use rustc_hash::FxHashSet;
 use std::collections::BTreeMap;
 
-/// Alphabet of goals chosen to share subgoals (indices into the corpus goal list are
-/// resolved by text so that the alphabet is stable under goal-set changes).
+/// Alphabet of goals chosen to share subgoals (resolved by text so that the
+/// alphabet is stable under goal-set changes).
 pub fn alphabet<'a, 'b>(frag: &str, goals: &'a [GoalCtx<'b>], max: usize) -> Vec<&'a GoalCtx<'b>> {
     let wanted: &[&str] = match frag {
         "f0" | "f0co" => &["A: T0", "A: T1", "A: T0, A: T1", "A: T2", "not { A: T0 }", "if (A: T2) { A: T0 }"],
@@ -38,6 +39,121 @@ pub fn alphabet<'a, 'b>(frag: &str, goals: &'a [GoalCtx<'b>], max: usize) -> Vec
         .collect()
 }
 
+pub struct HistGoal<'a> {
+    pub text: &'a str,
+    pub peeled: &'a Peeled,
+}
+
+/// Breadth-first search over histories of `solve(g)`, g in `alpha`, on one
+/// solver instance of configuration `cfg`, to closure. `expected[k]` is the
+/// answer every transition solving `alpha[k]` must give.
+#[allow(clippy::too_many_arguments)]
+pub fn explore(
+    rep: &Report,
+    property: &str,
+    local: &mut BTreeMap<String, u64>,
+    chalk: &Arc<chalk_integration::program::Program>,
+    prog_text: &str,
+    alpha: &[HistGoal],
+    expected: &[DSol],
+    cfg: SolverCfg,
+    class: &str,
+) -> (usize, bool) {
+    let mut seen: FxHashSet<String> = FxHashSet::default();
+    let mut frontier: Vec<Vec<usize>> = vec![vec![]];
+    seen.insert(AnySolver::new(cfg).fingerprint());
+    let mut closure = false;
+    let max_depth = alpha.len() + 2;
+    for _depth in 0..max_depth {
+        let mut next = vec![];
+        for hist in &frontier {
+            for (k, g) in alpha.iter().enumerate() {
+                // rebuild the state by replaying the history on a fresh solver
+                let mut solver = AnySolver::new(cfg);
+                let mut diverged = false;
+                for &h in hist {
+                    let (r, _) = solver.solve(&**chalk, &alpha[h].peeled.ugoal);
+                    *local.entry("replay_calls".into()).or_insert(0) += 1;
+                    if !r.is_ok() {
+                        diverged = true;
+                        break;
+                    }
+                }
+                if diverged {
+                    rep.machinery_error(format!("replay of history {:?} diverged on {}", hist, prog_text));
+                    continue;
+                }
+                let (r, _) = solver.solve(&**chalk, &g.peeled.ugoal);
+                *local.entry("transitions".into()).or_insert(0) += 1;
+                let hist_text = || hist.iter().map(|&h| alpha[h].text.to_string()).collect::<Vec<_>>();
+                let input = || json!({"program": prog_text, "history": hist_text(), "goal": g.text, "solver": cfg.name()});
+                match decode_caught(chalk, g.peeled, r) {
+                    Caught::Ok(ans) => {
+                        if ans != expected[k] {
+                            rep.violation(Violation {
+                                property: property.into(),
+                                kind: "answer-depends-on-history".into(),
+                                site: format!("{}/{}", cfg.short(), class),
+                                what: format!(
+                                    "{} after solving {:?}: `{}` -> {:?}, fresh solver -> {:?}",
+                                    cfg.name(), hist_text(), g.text, ans, expected[k]
+                                ),
+                                input: input(),
+                            });
+                        }
+                    }
+                    Caught::Panic(loc, msg) => rep.violation(Violation {
+                        property: property.into(),
+                        kind: "panic-after-history".into(),
+                        site: crate::report::panic_site(&loc, &msg),
+                        what: format!("{} after solving {:?}: `{}` panics ({}) although it returns on a fresh solver", cfg.name(), hist_text(), g.text, msg),
+                        input: input(),
+                    }),
+                    Caught::Budget => rep.violation(Violation {
+                        property: property.into(),
+                        kind: "runaway-after-history".into(),
+                        site: format!("{}/{}", cfg.short(), class),
+                        what: format!("{} after solving {:?}: `{}` exceeds the tick budget although it returns on a fresh solver", cfg.name(), hist_text(), g.text),
+                        input: input(),
+                    }),
+                    Caught::Injected => {}
+                }
+                if let Some((stack, graph)) = solver.rec_residue() {
+                    if stack != 0 || graph != 0 {
+                        rep.violation(Violation {
+                            property: property.into(),
+                            kind: "residue-between-calls".into(),
+                            site: format!("recursive/{}", class),
+                            what: format!("after `{}` the recursive solver keeps stack depth {} and {} search-graph nodes", g.text, stack, graph),
+                            input: input(),
+                        });
+                    }
+                }
+                let fp = solver.fingerprint();
+                if seen.insert(fp) {
+                    let mut h = hist.clone();
+                    h.push(k);
+                    next.push(h);
+                }
+            }
+        }
+        if next.is_empty() {
+            closure = true;
+            break;
+        }
+        frontier = next;
+    }
+    *local.entry("states".into()).or_insert(0) += seen.len() as u64;
+    *local
+        .entry(if closure { "searches_closed" } else { "searches_cut_at_depth" }.to_string())
+        .or_insert(0) += 1;
+    if seen.len() > 2 {
+        *local.entry("searches_with_more_than_two_states".into()).or_insert(0) += 1;
+    }
+    rep.max("max_states_in_one_search", seen.len() as u64);
+    (seen.len(), closure)
+}
+
 pub fn run_c10(rep: &Report) -> i32 {
     let thorough = rep.is_thorough();
     let corpora = core_corpora(thorough, if thorough { 0 } else { 1 });
@@ -50,18 +166,22 @@ pub fn run_c10(rep: &Report) -> i32 {
             return;
         }
         *local.entry("programs_explored".into()).or_insert(0) += 1;
-        // fresh answers (per configuration)
         for cfg in cfgs {
-            let mut fresh: Vec<Option<DSol>> = vec![];
+            // fresh answers (per configuration)
+            let mut fresh: Vec<DSol> = vec![];
+            let mut ok = true;
             for g in &alpha {
                 let (r, _) = drive::solve_fresh(&pc.chalk, &g.peeled, cfg);
                 *local.entry("transitions".into()).or_insert(0) += 1;
-                fresh.push(match r {
-                    Caught::Ok(s) => Some(s),
-                    _ => None, // judged by C09
-                });
+                match r {
+                    Caught::Ok(s) => fresh.push(s),
+                    _ => {
+                        ok = false;
+                        break;
+                    }
+                }
             }
-            if fresh.iter().any(|f| f.is_none()) {
+            if !ok {
                 *local.entry("programs_with_a_non_returning_goal(skipped, C09)".into()).or_insert(0) += 1;
                 continue;
             }
@@ -71,7 +191,7 @@ pub fn run_c10(rep: &Report) -> i32 {
                     let (r, _) = drive::solve_fresh(&pc.chalk, &g.peeled, SolverCfg::REC);
                     *local.entry("transitions".into()).or_insert(0) += 1;
                     if let Caught::Ok(on) = r {
-                        if Some(&on) != fresh[k].as_ref() {
+                        if on != fresh[k] {
                             rep.violation(Violation {
                                 property: "C10".into(),
                                 kind: "cache-on-off-differ".into(),
@@ -83,103 +203,11 @@ pub fn run_c10(rep: &Report) -> i32 {
                     }
                 }
             }
-            // explicit-state search over histories
-            let mut seen: FxHashSet<String> = FxHashSet::default();
-            let mut frontier: Vec<Vec<usize>> = vec![vec![]];
-            seen.insert(AnySolver::new(cfg).fingerprint());
-            let mut closure = false;
-            let max_depth = alpha.len() + 2;
-            for _depth in 0..max_depth {
-                let mut next = vec![];
-                for hist in &frontier {
-                    for (k, g) in alpha.iter().enumerate() {
-                        // rebuild the state by replaying the history on a fresh solver
-                        let mut solver = AnySolver::new(cfg);
-                        let mut diverged = false;
-                        for &h in hist {
-                            let (r, _) = solver.solve(&*pc.chalk, &alpha[h].peeled.ugoal);
-                            *local.entry("replay_calls".into()).or_insert(0) += 1;
-                            if !r.is_ok() {
-                                diverged = true;
-                                break;
-                            }
-                        }
-                        if diverged {
-                            rep.machinery_error(format!("replay of history {:?} diverged on {}", hist, pc.text));
-                            continue;
-                        }
-                        let (r, _) = solver.solve(&*pc.chalk, &g.peeled.ugoal);
-                        *local.entry("transitions".into()).or_insert(0) += 1;
-                        let hist_text = || hist.iter().map(|&h| alpha[h].text.clone()).collect::<Vec<_>>();
-                        let input = || {
-                            json!({"fragment": pc.frag, "program_index": pc.pi, "program": pc.text,
-                                "history": hist_text(), "goal": g.text, "solver": cfg.name()})
-                        };
-                        match decode_caught(&pc.chalk, &g.peeled, r) {
-                            Caught::Ok(ans) => {
-                                if Some(&ans) != fresh[k].as_ref() {
-                                    rep.violation(Violation {
-                                        property: "C10".into(),
-                                        kind: "answer-depends-on-history".into(),
-                                        site: format!("{}/{}", cfg.short(), pc.class),
-                                        what: format!(
-                                            "{} after solving {:?}: `{}` -> {:?}, fresh solver -> {:?}",
-                                            cfg.name(), hist_text(), g.text, ans, fresh[k]
-                                        ),
-                                        input: input(),
-                                    });
-                                }
-                            }
-                            Caught::Panic(loc, msg) => rep.violation(Violation {
-                                property: "C10".into(),
-                                kind: "panic-after-history".into(),
-                                site: crate::report::panic_site(&loc, &msg),
-                                what: format!("{} after solving {:?}: `{}` panics ({}) although it returns on a fresh solver", cfg.name(), hist_text(), g.text, msg),
-                                input: input(),
-                            }),
-                            Caught::Budget => rep.violation(Violation {
-                                property: "C10".into(),
-                                kind: "runaway-after-history".into(),
-                                site: format!("{}/{}", cfg.short(), pc.class),
-                                what: format!("{} after solving {:?}: `{}` exceeds the tick budget although it returns on a fresh solver", cfg.name(), hist_text(), g.text),
-                                input: input(),
-                            }),
-                            Caught::Injected => {}
-                        }
-                        if let Some((stack, graph)) = solver.rec_residue() {
-                            if stack != 0 || graph != 0 {
-                                rep.violation(Violation {
-                                    property: "C10".into(),
-                                    kind: "residue-between-calls".into(),
-                                    site: format!("recursive/{}", pc.class),
-                                    what: format!("after `{}` the recursive solver keeps stack depth {} and {} search-graph nodes", g.text, stack, graph),
-                                    input: input(),
-                                });
-                            }
-                        }
-                        let fp = solver.fingerprint();
-                        if seen.insert(fp) {
-                            let mut h = hist.clone();
-                            h.push(k);
-                            next.push(h);
-                        }
-                    }
-                }
-                if next.is_empty() {
-                    closure = true;
-                    break;
-                }
-                frontier = next;
-            }
-            *local.entry("states".into()).or_insert(0) += seen.len() as u64;
-            *local.entry(if closure { "searches_closed" } else { "searches_cut_at_depth" }.to_string()).or_insert(0) += 1;
-            if seen.len() > 2 {
-                *local.entry("searches_with_more_than_two_states".into()).or_insert(0) += 1;
-            }
-            rep.max("max_states_in_one_search", seen.len() as u64);
+            let hg: Vec<HistGoal> = alpha.iter().map(|g| HistGoal { text: &g.text, peeled: &g.peeled }).collect();
+            let (n, closed) = explore(rep, "C10", &mut local, &pc.chalk, &pc.text, &hg, &fresh, cfg, pc.class);
             if pc.pi % 400 == 0 && cfg.is_slg() {
                 rep.sample(json!({"program": pc.text, "alphabet": alpha.iter().map(|g| g.text.clone()).collect::<Vec<_>>(),
-                    "solver": cfg.name(), "distinct_solver_states": seen.len(), "closed": closure}));
+                    "solver": cfg.name(), "distinct_solver_states": n, "closed": closed}));
             }
         }
         rep.merge_counts(&local);
